@@ -688,6 +688,23 @@ class Hooks(BaseHooks):
         if not hard and not (fault.get("line") and not rec.get("fault_fired") and False):
             self.need.append(i)
 
+    def after_run(self, ex, viol):
+        # values already handed to the caller must stay what they were: a later call must not
+        # reach back into them (returned objects aliasing internal state)
+        from ..world import TIMING_IDX, digest
+        for i, rec in enumerate(ex.recs):
+            if rec.get("k") not in ("call", "fn") or rec.get("ok") != "ret" or "digest" not in rec:
+                continue
+            step = self.trace["steps"][i]
+            if step.get("fn") in _inplace():
+                continue
+            key = (ex.objcfg[step["obj"]][0].split(".")[-1], step["meth"]) if "obj" in step else (None, step.get("fn"))
+            now = digest(ex.values.get(i), TIMING_IDX.get(key, ()))
+            if now != rec["digest"]:
+                name = step.get("fn") or f"{ex.objcfg[step['obj']][0]}.{step['meth']}"
+                viol.append(V("result_mutated_later", i,
+                              f"the value {name} returned at step {i} was modified by a later call of the run"))
+
     def ref_requests(self, ex):
         out = []
         for i, rec in enumerate(ex.recs):
